@@ -70,6 +70,9 @@ type Env struct {
 	InUse map[any]int
 	// Names maps matrix candidate names to behaviour IDs.
 	Names map[string]int
+	// Quiet: no logging or bookkeeping at all (the Env is shared by really
+	// concurrent goroutines in the auxiliary race-detector run).
+	Quiet bool
 }
 
 var Cur = &Env{}
@@ -82,6 +85,9 @@ func (e *Env) beh(id int) Behaviour {
 }
 
 func (e *Env) log(method string, id int, res string) {
+	if e.Quiet {
+		return
+	}
 	if len(e.Log) < 4096 {
 		e.Log = append(e.Log, Event{Method: method, ID: id, Result: res})
 	}
@@ -104,11 +110,13 @@ func okPayload(b Behaviour, id int) string {
 func (e *Env) MarshalTo(method string, id int, enc *jsontext.Encoder) error {
 	b := e.beh(id)
 	e.log(method, id, KindNames[b.Kind])
-	if e.InUse == nil {
-		e.InUse = map[any]int{}
+	if !e.Quiet {
+		if e.InUse == nil {
+			e.InUse = map[any]int{}
+		}
+		e.InUse[enc]++
+		defer func() { e.InUse[enc]-- }()
 	}
-	e.InUse[enc]++
-	defer func() { e.InUse[enc]-- }()
 	e.yield("peer/" + method)
 	if e.CheckOpts != nil {
 		if msg := e.CheckOpts(enc.Options()); msg != "" {
@@ -154,7 +162,9 @@ func (e *Env) MarshalTo(method string, id int, enc *jsontext.Encoder) error {
 		}
 		return nil
 	case BReenter:
-		if e.Depth < 2 {
+		if e.Quiet {
+			json.Marshal(map[string]any{"reenter": []any{1, "x", nil}})
+		} else if e.Depth < 2 {
 			e.Depth++
 			json.Marshal(map[string]any{"reenter": []any{1, "x", nil}})
 			var x any
@@ -258,7 +268,9 @@ func (e *Env) MarshalBytes(method string, id int) ([]byte, error) {
 	case BCloseParent:
 		return []byte(okPayload(b, id) + `}{"g":2`), nil
 	case BReenter:
-		if e.Depth < 2 {
+		if e.Quiet {
+			json.Marshal([]any{"reenter"})
+		} else if e.Depth < 2 {
 			e.Depth++
 			json.Marshal([]any{"reenter"})
 			e.Depth--
@@ -332,6 +344,14 @@ type PAppend struct{ ID int }
 
 func (p PAppend) AppendText(b []byte) ([]byte, error) {
 	t, err := Cur.MarshalText("PAppend.AppendText", p.ID)
+	switch Cur.beh(p.ID).Kind {
+	case BZero:
+		return nil, nil // breaks the append contract: returns less than it was given
+	case BTwo:
+		return b[:len(b)/2], nil
+	case BOpen:
+		return []byte("fresh slice, not an extension of b"), nil
+	}
 	return append(b, t...), err
 }
 
